@@ -7,6 +7,7 @@ import Golib.Proof.C19Fill
 import Golib.Proof.C19Rec
 import Golib.Proof.C19Hid
 import Golib.Proof.C19Trace
+import Golib.Proof.C19Endings
 import Golib.Gen.FactsC19
 
 namespace Golib.C19
@@ -95,15 +96,114 @@ theorem c19_no_leak (limit : Int) (s : St) (h : Reachable limit s) :
   exact ⟨s', h.extend hr, hrun⟩
 
 /-- `c19_handler`: the handler (or the fallback print) has received exactly `[v]` on
-behalf of a task iff the task's function panicked with `v` and the outer deferred
-function has passed its `recover()` check; nothing otherwise. -/
+behalf of a task iff `recover()` in the outer deferred function reported the value `v` —
+the function panicked with `v` (for a re-panic: the value of the last panic; for
+`panic(nil)` under the Go ≥ 1.21 default: the `*runtime.PanicNilError`) — and the deferred
+function has passed its `recover()` check; nothing otherwise: not for a function that
+returns, not for `panic(nil)` under `GODEBUG=panicnil=1` (`recover()` returns nil: there is
+no value, the code cannot tell it from a return — recorded observation), not for
+`runtime.Goexit()` (not a panic). -/
 theorem c19_handler (limit : Int) (s : St) (h : Reachable limit s) :
     ∀ t ∈ s.tasks, t.handled =
       (match t.outcome with
-       | .ok => []
-       | .panic v => if 6 ≤ t.pc.rank then [.val v] else []) := by
+       | .panic v => if 6 ≤ t.pc.rank then [.val v] else []
+       | .ok | .panicNil | .goexit => []) := by
   intro t ht
-  exact ((Inv.of_reachable h).htasks t ht).handled
+  rw [((Inv.of_reachable h).htasks t ht).handled]
+  unfold Task.expectedHandled
+  cases t.outcome <;> rfl
+
+/-- `c19_endings` (the ways a submitted function can END — wave 8 class "task endings"):
+which endings the property sentence "a function that panics" covers is `Outcome.isPanic`:
+`panic v` and `panicNil` (`panic(nil)` under `GODEBUG=panicnil=1`); `goexit`
+(`runtime.Goexit()`) is NOT a panic and is covered by the first sentence of the property
+(slots, exactly once, Wait).  For EVERY ending `o` — `ok`, `panic v`, `panicNil`, `goexit` —
+and every reachable state, once task `i` has left its function (`recovering`: the outer
+deferred function of `Recover` is about to call `recover()`; it runs for every ending because
+it was deferred before `fn()`):
+(1) its three remaining statements `recover()`→(handler), `l.w.Done()`, `<-l.c` are enabled one
+    after the other and end in `exited`: exactly one token and one WaitGroup count are given
+    back (`k` and `wg` are positive before), the number of functions inside is unchanged, every
+    other task is untouched;
+(2) on the way the handler gets `[v]` if `recover()` reported `v`, and nothing for `ok`,
+    `panicNil`, `goexit`;
+(3) in any interleaving with other goroutines each of these steps stays enabled until the task
+    has exited (no ending leaves a task stuck holding its slot). -/
+theorem c19_endings (limit : Int) (s : St) (h : Reachable limit s) (i : Nat) (t : Task)
+    (ht : s.tasks[i]? = some t) (hpc : t.pc = .recovering) :
+    (∃ s', advN s i 3 = some s' ∧ Reachable limit s' ∧
+        s'.k + 1 = s.k ∧ s'.wg + 1 = s.wg ∧ s'.running = s.running ∧
+        (∀ j, j ≠ i → s'.tasks[j]? = s.tasks[j]?) ∧
+        s'.tasks[i]? = some { t with pc := .exited, handled := t.handled ++ t.outcome.handlerGets }) ∧
+    t.outcome.handlerGets =
+      (match t.outcome with
+       | .panic v => [.val v]
+       | .ok | .panicNil | .goexit => []) ∧
+    (∀ s₂ t₂, Reachable limit s₂ → s₂.tasks[i]? = some t₂ → 5 ≤ t₂.pc.rank → t₂.pc ≠ .exited →
+        (s₂.adv i).isSome = true) := by
+  have hi := Inv.of_reachable h
+  obtain ⟨hrun, hk, hwg⟩ := ending_returns_slot hi ht hpc
+  have hlen : i < s.tasks.length := (List.getElem?_eq_some_iff.1 ht).1
+  refine ⟨⟨_, hrun, ?_, ?_, ?_, ?_, ?_, ?_⟩, ?_, ?_⟩
+  · exact h.extend (by rw [← advN_eq_run]; exact hrun)
+  · show s.k - 1 + 1 = s.k; omega
+  · show s.wg - 1 + 1 = s.wg; omega
+  · have c := (countP_set_some (p := fun t => t.pc == .running)
+      (t' := { t with pc := .exited, handled := t.handled ++ t.outcome.handlerGets }) ht).1
+    simp only [hpc] at c
+    simpa [St.running] using c
+  · intro j hj
+    exact List.getElem?_set_ne (Ne.symm hj)
+  · exact List.getElem?_set_self hlen
+  · unfold Outcome.handlerGets
+    cases t.outcome <;> rfl
+  · intro s₂ t₂ h₂ ht₂ h5 hne
+    refine (Inv.of_reachable h₂).progress ht₂ hne (fun e => ?_)
+    rw [e] at h5; simp [Pc.rank] at h5
+
+/-- `c19_endings_sequence`: any finite sequence of endings of any kinds, one function after the
+other (submit, run, end, deferred cleanup), on a Limiter with a free slot: the schedule is
+executable to the end and leaves the token count and the WaitGroup counter EXACTLY as they
+were — in particular from `NewLimiter(limit)`: `k = 0`, `wg = 0`, so all `n` slots are free for
+later submissions (with `c19_no_leak` (4): `n` functions can be inside simultaneously) and a
+`Wait()` returns —, every function was entered once, and the handler got exactly what
+`recover()` reported for each. -/
+theorem c19_endings_sequence (limit : Int) (os : List Outcome) :
+    ∃ s, (newLimiter limit).run (seqTasks 0 os) = some s ∧
+      s.k = 0 ∧ s.wg = 0 ∧ s.n = limitOf limit ∧
+      s.tasks = os.map (doneTask 0) ∧
+      (∀ t ∈ s.tasks, t.pc = .exited ∧ t.starts = 1 ∧ t.handled = t.outcome.handlerGets) ∧
+      (∃ s', Reachable limit s' ∧ s'.running = s.n) := by
+  have hn : (newLimiter limit).k < (newLimiter limit).n := (c19_default_limit limit).2
+  have hr := run_seqTasks os (newLimiter limit) hn
+  simp only [newLimiter, List.length_nil, List.nil_append] at hr
+  refine ⟨_, hr, rfl, rfl, rfl, rfl, ?_, ?_⟩
+  · intro t ht
+    simp only [List.mem_map] at ht
+    obtain ⟨o, _, rfl⟩ := ht
+    exact ⟨rfl, rfl, rfl⟩
+  · have hreach : Reachable limit { n := limitOf limit, tasks := os.map (doneTask 0) } := ⟨_, hr⟩
+    obtain ⟨s', h1, h2⟩ := (c19_no_leak limit _ hreach).2.2.2
+    refine ⟨s', h1, ?_⟩
+    rw [h2]
+    simp [St.running, List.countP_map, doneTask, Function.comp_def]
+
+/-- Non-vacuity: limit 2; the functions end with `panic(nil)` under `panicnil=1`, `Goexit`,
+a panic with 7, a return: all four have exited, the handler got only the 7, no token is held,
+the WaitGroup counter is zero. -/
+example : ∃ s, (newLimiter 2).run (seqTasks 0 [.panicNil, .goexit, .panic 7, .ok]) = some s ∧
+    s.k = 0 ∧ s.wg = 0 ∧ s.tasks.map (·.pc) = [.exited, .exited, .exited, .exited] ∧
+    s.tasks.map (·.handled) = [[], [], [.val 7], []] := by
+  refine ⟨_, rfl, ?_⟩
+  decide
+
+/-- Non-vacuity of `c19_endings`: limit 1; task 0 ended with `panic(nil)` under `panicnil=1`
+and sits in `recovering` holding the only token, task 1 is blocked before its send; after
+the three deferred statements of task 0 the token is back and task 1 can send. -/
+example : ∃ s s', Reachable 1 s ∧ (s.tasks.map (·.pc) = [.recovering, .new]) ∧ s.adv 1 = none ∧
+    advN s 0 3 = some s' ∧ s'.k = 0 ∧ (s'.adv 1).isSome = true := by
+  refine ⟨_, _, ⟨[.submit .panicNil, .adv 0, .adv 0, .adv 0, .adv 0, .adv 0, .submit .goexit], rfl⟩, ?_, ?_, rfl, ?_, ?_⟩ <;>
+  decide
 
 /-- `c19_wait_timeout_preserves_bound`: a `Wait(d)` call (d > 0) that returns — because
 the Limiter became idle or because `d` expired while functions are still running — changes
@@ -201,42 +301,72 @@ theorem c19_limiters_independent (ps : List Player) (idx : String) (i : Nat) (p 
 
 /-- `c19_recover` (the exported `Recover(fn, panicFn, cleanups...)` used directly; anchor
 "converts a panic into a handler call and then runs the cleanups even if a cleanup
-panics"), for every outcome of `fn` and every list of cleanups:
-(1) the handler gets the value of `fn`'s panic first — exactly when `fn` panicked;
-(2) if no cleanup panics, every cleanup is called once, in order, and the handler gets
-    nothing else — in particular after a panic of `fn` (the slot is given back);
-(3) if cleanup number `k` is the first that panics (with `w`), the cleanups `0..k` have
-    been called, the handler additionally gets "cleanup panic: w, index: k", and the
-    cleanups after `k` are NOT called;
-`Recover` returns normally in all cases (`recoverRun` is total: no panic escapes). -/
+panics"), for every way `fn` ends (return, panic with a value, `panic(nil)` under
+`GODEBUG=panicnil=1`, `runtime.Goexit()`) and every list of cleanups:
+(1) the handler gets the value `recover()` reports for `fn` first — exactly when there is one;
+(2) if every cleanup returns, every cleanup is called once, in order, and the handler gets
+    nothing else — in particular after ANY ending of `fn` (the slot is given back);
+(3) if cleanup number `k` is the first that does not return and it panics with `w`, the
+    cleanups `0..k` have been called, the handler additionally gets "cleanup panic: w, index: k",
+    and the cleanups after `k` are NOT called;
+(4) if cleanup number `k` is the first that does not return and it ends with `panic(nil)` under
+    `panicnil=1` or with `Goexit`, the cleanups `0..k` have been called, the cleanups after `k`
+    are NOT called and the handler gets nothing about it (the inner `recover()` returns nil:
+    recorded observation, the remaining cleanups are lost silently);
+(5) `Recover` returns to its caller unless `fn` or a called cleanup ended the goroutine with
+    `Goexit` — no panic escapes in any case (`recoverRun` is total). -/
 theorem c19_recover (fn : Outcome) :
     (∀ cl, ∃ rest, (recoverRun fn cl).handled =
-        (match fn with | .ok => [] | .panic v => [RVal.val v]) ++ rest ∧ rest.length ≤ 1) ∧
+        (match fn with | .panic v => [RVal.val v] | .ok | .panicNil | .goexit => []) ++ rest ∧
+        rest.length ≤ 1) ∧
     (∀ cl, (∀ c ∈ cl, c = Outcome.ok) →
         (recoverRun fn cl).ran = List.range cl.length ∧
-        (recoverRun fn cl).handled = (match fn with | .ok => [] | .panic v => [RVal.val v])) ∧
+        (recoverRun fn cl).handled =
+          (match fn with | .panic v => [RVal.val v] | .ok | .panicNil | .goexit => [])) ∧
     (∀ pre w post, (∀ c ∈ pre, c = Outcome.ok) →
         (recoverRun fn (pre ++ Outcome.panic w :: post)).ran = List.range (pre.length + 1) ∧
         (recoverRun fn (pre ++ Outcome.panic w :: post)).handled =
-          (match fn with | .ok => [] | .panic v => [RVal.val v]) ++ [RVal.cleanupPanic w pre.length]) := by
-  cases fn <;> refine ⟨fun cl => ?_, fun cl h => ?_, fun pre w post h => ?_⟩
-  all_goals first
-    | (refine ⟨_, rfl, ?_⟩; cases (runCleanups 0 cl).2 <;> simp)
-    | simp [recoverRun, runCleanups_all_ok 0 cl h]
-    | simp [recoverRun, runCleanups_split 0 pre w post h]
+          (match fn with | .panic v => [RVal.val v] | .ok | .panicNil | .goexit => []) ++
+            [RVal.cleanupPanic w pre.length]) ∧
+    (∀ pre c post, (∀ c ∈ pre, c = Outcome.ok) → c = Outcome.panicNil ∨ c = Outcome.goexit →
+        (recoverRun fn (pre ++ c :: post)).ran = List.range (pre.length + 1) ∧
+        (recoverRun fn (pre ++ c :: post)).handled =
+          (match fn with | .panic v => [RVal.val v] | .ok | .panicNil | .goexit => [])) ∧
+    (∀ cl, (∀ c ∈ cl, c ≠ Outcome.goexit) → (recoverRun fn cl).returns = !(fn == .goexit)) ∧
+    (∀ pre post, (∀ c ∈ pre, c = Outcome.ok) →
+        (recoverRun fn (pre ++ Outcome.goexit :: post)).returns = false) := by
+  refine ⟨fun cl => ?_, fun cl h => ?_, fun pre w post h => ?_, fun pre c post h hc => ?_,
+    fun cl h => ?_, fun pre post h => ?_⟩
+  · refine ⟨match (runCleanups 0 cl).2 with | some (v, i) => [.cleanupPanic v i] | none => [], ?_, ?_⟩
+    · cases fn <;> rfl
+    · cases (runCleanups 0 cl).2 <;> simp
+  · cases fn <;> simp [recoverRun, Outcome.recovered, runCleanups_all_ok 0 cl h]
+  · cases fn <;> simp [recoverRun, Outcome.recovered, runCleanups_split 0 pre w post h]
+  · cases fn <;> simp [recoverRun, Outcome.recovered, runCleanups_split_silent 0 pre c post h hc]
+  · simp [recoverRun, cleanupsGoexit_false cl h]
+  · simp [recoverRun, cleanupsGoexit_split pre post h]
 
 /-- `Limiter.Go` is `Recover(fn, handler, l.done)`; `l.done` never panics
-(`c19_no_leak` (2)), so the one cleanup always runs and the handler gets exactly the
-panic value — the `recovering → cleanup → wgDone → exited` path of the machine. -/
+(`c19_no_leak` (2)), so the one cleanup always runs — for every ending of `fn` — and the
+handler gets exactly what `recover()` reported: the `recovering → cleanup → wgDone → exited`
+path of the machine (`c19_endings`). -/
 theorem c19_recover_limiter_instance (fn : Outcome) :
     (recoverRun fn [.ok]).ran = [0] ∧
-    (recoverRun fn [.ok]).handled = (match fn with | .ok => [] | .panic v => [RVal.val v]) := by
+    (recoverRun fn [.ok]).handled =
+      (match fn with | .panic v => [RVal.val v] | .ok | .panicNil | .goexit => []) := by
   cases fn <;> exact ⟨rfl, rfl⟩
 
 /-- Non-vacuity: `fn` panics with 5, cleanups ok / panic 7 / ok: handler gets 5 then the
 cleanup panic at index 1; cleanup 2 does not run. -/
 example : recoverRun (.panic 5) [.ok, .panic 7, .ok] =
     { handled := [.val 5, .cleanupPanic 7 1], ran := [0, 1] } := by decide
+
+/-- Non-vacuity: `fn` ends with `panic(nil)` under `panicnil=1`: nothing for the handler, both
+cleanups run, `Recover` returns; `fn` calls `Goexit`: the same, but `Recover` does not return;
+a cleanup that ends with `panic(nil)` under `panicnil=1`: the next one is lost silently. -/
+example : recoverRun .panicNil [.ok, .ok] = { handled := [], ran := [0, 1] } ∧
+    recoverRun .goexit [.ok, .ok] = { handled := [], ran := [0, 1], returns := false } ∧
+    recoverRun (.panic 5) [.panicNil, .ok] = { handled := [.val 5], ran := [0] } := by decide
 
 /-- Non-vacuity: a concrete reachable state with limit 1 — task 0 (panicking with 7) has
 exited and its value reached the handler, task 1 is inside its function, task 2 waits
